@@ -216,9 +216,12 @@ def rule_buffer_allowance(col, facts):
     # NOTE: the decimal allowance itself is no longer an obligation: since the F22 repair the term is
     # `max(digits, u64::FORMATTED_SIZE_DECIMAL)`, and what must hold - the final term is >= the writer's window
     # on every path - is decided by rule_digit_window_allowance (a smaller literal here is harmless).
-    col.check(R, "buffer_size_const:decimal-allowance:present", dec is not None, "the decimal significant-digit allowance was not found", f.loc())
+    if dec is None:
+        raise ShapeUnknown("buffer_size_const: no literal significant-digit allowance assigned under `radix() == 10`")
     if "power-of-two" in facts.config or "radix" in facts.config:
-        col.check(R, "buffer_size_const:radix-digits", other is not None and other >= 64,
+        if other is None:
+            raise ShapeUnknown("buffer_size_const: no literal non-decimal significant-digit allowance")
+        col.check(R, "buffer_size_const:radix-digits", other >= 64,
                   "the non-decimal significant-digit allowance is %s; a radix-2 mantissa alone has 53 digits and the u64 writer window is 64" % other, f.loc())
 
 
